@@ -298,8 +298,19 @@ def run(ctx):
             if prev is not None and rnd.random() < 0.3:
                 # back-to-back twins of the previous request (a result remembered under an incomplete key would repeat)
                 pm, pp = prev
-                t = rnd.choice(["same-m", "same-p", "swap", "nfc-of-prev", "nfd-of-prev"])
-                if t == "same-m":
+                t = rnd.choice(["same-m", "same-p", "swap", "nfc-of-prev", "nfd-of-prev", "shift-right", "shift-left", "shift-right", "shift-left"])
+                if t in ("shift-right", "shift-left"):
+                    # the SAME concatenated text, cut at another place: some characters move from the passphrase to the end
+                    # of the mnemonic or back (a result remembered under mnemonic+passphrase without a separator would repeat);
+                    # done on the NFKD forms so that a combining mark can travel alone
+                    nm, np_ = unicodedata.normalize("NFKD", pm), unicodedata.normalize("NFKD", pp)
+                    if t == "shift-right" and np_:
+                        k = rnd.randrange(1, len(np_) + 1)
+                        m, p, mtag, ptag = nm + np_[:k], np_[k:], "m:twin-shift", "p:twin-shift"
+                    elif nm:
+                        k = rnd.randrange(1, len(nm) + 1)
+                        m, p, mtag, ptag = nm[:-k], nm[-k:] + np_, "m:twin-shift", "p:twin-shift"
+                elif t == "same-m":
                     m, mtag = pm, "m:twin"
                 elif t == "same-p":
                     p, ptag = pp, "p:twin"
